@@ -103,6 +103,9 @@ type Step struct {
 	Op   string   `json:"op"`
 	Mods []string `json:"mods,omitempty"`
 	US   int      `json:"us,omitempty"`
+	// Conc (manage): further goroutines that each enable / disable some modules (Op, Mods) and then request a
+	// management pass of their own while this pass is requested; the step ends when all of them have returned.
+	Conc []Step `json:"conc,omitempty"`
 }
 
 // Delay makes the n-th arrival (1-based; 0 = every arrival) of a goroutine at a
